@@ -198,6 +198,8 @@ class PTDP(object):
         if len(buffer) < 6:
             raise PTDPRemainingData("Can't unpack less than the header length")
 
+        # The low latency marking is not carried by the PTDP itself: the frame decoder sets it after unpacking
+        self.low_latency = False
         lsw = self._golay.decode(buffer[:3])
         msw = self._golay.decode(buffer[3:6])
 
